@@ -8,7 +8,7 @@
    the fragment accepted by [chk_prog true] (the _partial theorems, proved for all programs, states, arguments and
    fuel) and fails for [chk_prog false] exactly through (a), (b), (c) (the _refuted theorems). *)
 From CV Require Import C07.Sem C07.Lemmas C07.Invariants C07.Soundness C07.Cases C07.Witness C07.Proofs C07.Strict.
-From CV Require Import Gen.GenC07Purity.
+From CV Require Import Gen.GenC07Purity C07.Sites.
 
 (* the full-strength statement of the property for the code-shaped analysis *)
 Definition C07_statement : Prop := full_statement_call /\ full_statement_init.
@@ -78,6 +78,14 @@ Theorem C07_builtin_table_models :
           all_builtins = true.
 Proof. exact table_consistent. Qed.
 Print Assumptions C07_builtin_table_models.
+
+(* The wiring of the purity checks in the sema sources of this run (which functions call EnforcePurity,
+   ObserveImpureOperation, InNewPurityScope, enforceViewAssignment and the shared helper checkAssignment, how often) is the
+   wiring the model transcribes: in particular enforceViewAssignment sits in checkAssignment, which serves assignment
+   statements AND the second value transfer of variable declarations. *)
+Theorem C07_purity_wiring : sites_eqb purity_sites expected_sites = true.
+Proof. exact purity_wiring. Qed.
+Print Assumptions C07_purity_wiring.
 
 (* The code-shaped analysis accepts programs with effects. *)
 Theorem C07_view_body_emit_refuted : ~ full_statement_call.
